@@ -19,7 +19,7 @@ Record wff_props (allow_dev allow_vinfo : bool) (f : FunctionP) : Prop := {
   f_vis_wf : forallb wf_vinfo (f_vinfo f) = true;
   f_opsets_wf : wf_dict (f_opsets f) = true;
   f_meta_wf : wf_dict (f_meta f) = true;
-  f_nodes_wf : forallb (wf_node allow_dev (wf_graph true) (f_inputs f ++ node_out_names (f_nodes f))) (f_nodes f) = true }.
+  f_nodes_wf : forallb (wf_node allow_dev (wf_graph allow_dev) (f_inputs f ++ node_out_names (f_nodes f))) (f_nodes f) = true }.
 
 Lemma wf_function_unpack allow_dev allow_vinfo f :
   wf_function allow_dev allow_vinfo f = true -> wff_props allow_dev allow_vinfo f.
